@@ -90,6 +90,14 @@ def ev(node, env: dict, funcs: dict | None = None, methods: dict | None = None):
             if isinstance(n.op, ast.Not):
                 return not v
         if isinstance(n, ast.BinOp):
+            if isinstance(n.op, ast.Div):
+                from fractions import Fraction
+                a, b = e(n.left, env), e(n.right, env)
+                if isinstance(a, (int, Fraction)) and isinstance(b, (int, Fraction)) and not isinstance(a, bool) and not isinstance(b, bool):
+                    if b == 0:
+                        raise NotFinite("division by zero")
+                    return Fraction(a) / Fraction(b)
+                raise NotFinite("true division of non-exact operands")
             op = _BIN.get(type(n.op))
             if op is None:
                 raise NotFinite(f"operator {type(n.op).__name__}")
@@ -197,6 +205,13 @@ def ev(node, env: dict, funcs: dict | None = None, methods: dict | None = None):
                     if k.startswith(pref):
                         env["self." + k[len(pref):]] = v
                 return result
+            if isinstance(n.func, ast.Attribute) and n.func.attr in ("reshape",):
+                try:
+                    obj = e(n.func.value, env)
+                except NotFinite:
+                    obj = None
+                if isinstance(obj, FinMat):
+                    return getattr(obj, n.func.attr)(*args, **kws)
             if isinstance(n.func, ast.Attribute) and n.func.attr in _CALENDAR_METHODS:
                 try:
                     obj = e(n.func.value, env)
@@ -350,7 +365,11 @@ class FinMat:
     @staticmethod
     def zeros(shape, **kw):
         if isinstance(shape, int):
-            shape = (shape, 1)
+            shape = (shape,)
+        if len(shape) == 1:
+            m = FinMat([[0] for _ in range(shape[0])])
+            m.one_d = True
+            return m
         r, c = shape
         return FinMat([[0] * c for _ in range(r)])
 
@@ -379,6 +398,8 @@ class FinMat:
         return None
 
     def __getitem__(self, key):
+        if getattr(self, "one_d", False) and isinstance(key, int):
+            return self.rows[key][0]
         if not isinstance(key, tuple) or len(key) != 2:
             raise NotFinite("matrix index")
         i, j = key
@@ -392,6 +413,9 @@ class FinMat:
         return FinMat([[self.rows[r][c] for c in cj] for r in ri])
 
     def __setitem__(self, key, value):
+        if getattr(self, "one_d", False) and isinstance(key, int):
+            self.rows[key][0] = value
+            return
         if not isinstance(key, tuple) or len(key) != 2:
             raise NotFinite("matrix index")
         i, j = key
@@ -411,6 +435,18 @@ class FinMat:
             for a, r in enumerate(ri):
                 for b, c in enumerate(cj):
                     self.rows[r][c] = src[a][b]
+
+    def reshape(self, *shape):
+        if len(shape) == 1 and isinstance(shape[0], (tuple, list)):
+            shape = tuple(shape[0])
+        flat = [x for r in self.rows for x in r]
+        if shape == (-1, 1):
+            return FinMat([[x] for x in flat])
+        if shape == (1, -1):
+            return FinMat([flat])
+        if len(shape) == 2 and -1 not in shape and shape[0] * shape[1] == len(flat):
+            return FinMat([flat[i * shape[1]:(i + 1) * shape[1]] for i in range(shape[0])])
+        raise NotFinite(f"reshape{shape}")
 
     def __matmul__(self, other):
         a, b = self.shape
